@@ -731,3 +731,6 @@ func (w *World) StopFaults() {
 		f.fired = true
 	}
 }
+
+// ApplyCount is the number of engine executions so far (the ApplySeq of the latest one).
+func (w *World) ApplyCount() int { return w.applySeq }
